@@ -381,21 +381,15 @@ fn eval(ctx: &CaseCtx, acc: &mut CellAcc, x: u64, neg: bool, init: u64, out0: u6
     // (3) round trip through wild's decoder
     let (r, rn) = read(insn, out);
     let re = write(insn, r & ctx.wmask, if m.uses_negative { rn } else { neg }, init);
-    if re != out {
+    let injective = m.kind == Kind::Plain && ctx.cell.width <= m.fmt.field_bits();
+    if re != out || (injective && r & ctx.wmask != x && dep == 0 && stray == 0) {
         acc.hit("roundtrip", || {
-            (format!("read_value(0x{out:x}) = (0x{r:x}, {rn}); writing that back gives 0x{re:x}, not 0x{out:x} (written value x=0x{x:x}, negative={neg}, initial word 0x{init:x})"), case_json(ctx, x, neg, init))
+            (format!("read_value(0x{out:x}) = (0x{r:x}, {rn}); writing that back gives 0x{re:x} (written: x=0x{x:x}, negative={neg}, initial word 0x{init:x} -> 0x{out:x}): the decoder does not give back the written value"), case_json(ctx, x, neg, init))
         });
-    } else if m.kind == Kind::Plain && ctx.cell.width <= m.fmt.field_bits() && dep == 0 && stray == 0 {
-        if r == x {
-        } else if r == sign_extend(x, ctx.cell.width) {
-            if m.ext == Ext::Unsigned && ctx.cell.width == m.fmt.field_bits() {
-                acc.hit("decode-sign-extends-unsigned-field", || {
-                    (format!("read_value(0x{out:x}) = 0x{r:x}: the manual's field is zero-extended ({}), the written in-range value was 0x{x:x}", m.fmt.manual), case_json(ctx, x, neg, init))
-                });
-            }
-        } else if r & ctx.wmask != x {
-            acc.hit("decode-differs", || (format!("read_value(0x{out:x}) = 0x{r:x}, written value 0x{x:x}"), case_json(ctx, x, neg, init)));
-        }
+    } else if injective && dep == 0 && stray == 0 && r != x && r == sign_extend(x, ctx.cell.width) && m.ext == Ext::Unsigned && ctx.cell.width == m.fmt.field_bits() {
+        acc.hit("decode-sign-extends-unsigned-field", || {
+            (format!("read_value(0x{out:x}) = 0x{r:x}: the manual's field is zero-extended ({}), the written in-range value was 0x{x:x}", m.fmt.manual), case_json(ctx, x, neg, init))
+        });
     }
     if m.uses_negative && rn != neg && re == out {
         acc.hit("decode-negative-flag", || (format!("read_value(0x{out:x}) returns negative={rn}, written negative={neg}"), case_json(ctx, x, neg, init)));
